@@ -1,4 +1,4 @@
--- GENERATED from attribute setters of magpylib/_src/obj_classes/*.py (AST) by /verif/translate/gen.py — do not edit; rewritten on every check run
+-- GENERATED from attribute setters of magpylib/_src/obj_classes/*.py and validators of magpylib/_src/input_checks.py (AST) by /verif/translate/gen.py — do not edit; rewritten on every check run
 namespace MagpyVerif.Gen.Attr
 
 structure Row where
@@ -27,9 +27,38 @@ def table : List Row := [
   ⟨"CylinderSegment", "dimension", "check_format_input_cylinder_segment", [], 0, 0, false, false, false, false⟩,
   ⟨"Dipole", "moment", "check_format_input_vector", [1], 3, 0, true, false, false, false⟩,
   ⟨"Polyline", "vertices", "check_format_input_vertices", [], 0, 0, false, false, false, false⟩,
-  ⟨"Sensor", "pixel", "check_format_input_vector", [], 3, 0, true, false, false, false⟩,
+  ⟨"Sensor", "pixel", "check_format_input_vector", [1, 2, 3, 4, 5, 6, 7, 8, 9, 10, 11, 12, 13, 14, 15, 16, 17, 18, 19], 3, 0, true, false, false, false⟩,
   ⟨"Sphere", "diameter", "check_format_input_scalar", [], 0, 0, true, true, false, false⟩,
   ⟨"Tetrahedron", "vertices", "check_format_input_vector", [2], 3, 4, true, false, false, false⟩,
   ⟨"Triangle", "vertices", "check_format_input_vector", [2], 3, 3, true, false, false, false⟩]
+
+/-- calls of check_format_input_vector inside the composite validators of input_checks.py (attr = calling function) -/
+def inner : List Row := [
+  ⟨"input_checks", "check_format_input_anchor", "check_format_input_vector", [1, 2], 3, 0, true, false, false, false⟩,
+  ⟨"input_checks", "check_format_input_axis", "check_format_input_vector", [1], 3, 0, false, false, false, false⟩,
+  ⟨"input_checks", "check_format_input_angle", "check_format_input_vector", [1], -1, 0, false, false, false, false⟩,
+  ⟨"input_checks", "check_format_input_vertices", "check_format_input_vector", [2], 3, 0, true, false, false, false⟩,
+  ⟨"input_checks", "check_format_input_cylinder_segment", "check_format_input_vector", [1], 5, 0, true, false, false, false⟩]
+
+/-- check_format_input_cylinder_segment: the unpacking, the case conditions and the raise condition, as source text -/
+def segConds : List (String × String) := [
+  ("unpack", "(r1, r2, h, phi1, phi2) = inp"),
+  ("case2", "r1 > r2"),
+  ("case3", "phi1 > phi2"),
+  ("case4", "phi2 - phi1 > 360"),
+  ("case5", "(r1 < 0) | (r2 <= 0) | (h <= 0)"),
+  ("raise-if", "case2 | case3 | case4 | case5")]
+
+/-- control-flow skeleton (tests, assignments, raises, returns in source order) of the validators modelled by hand in Model/Validators.lean -/
+def skeleton : List (String × List String) := [
+  ("is_array_like", ["if not isinstance(inp, (list, tuple, np.ndarray))", "  raise MagpylibBadUserInput"]),
+  ("make_float_array", ["try", "  inp_array = np.array(inp, dtype=float)", "except Exception", "  raise MagpylibBadUserInput", "return inp_array"]),
+  ("check_array_shape", ["if inp.ndim in dims", "  if shape_m1 == 'any' or inp.shape[-1] == shape_m1", "    if length is None or len(inp) == length", "      return None", "raise MagpylibBadUserInput"]),
+  ("check_format_input_scalar", ["if allow_None", "  if inp is None", "    return None", "if not isinstance(inp, numbers.Number)", "  raise MagpylibBadUserInput", "inp = float(inp)", "if forbid_negative", "  if inp < 0", "    raise MagpylibBadUserInput", "return inp"]),
+  ("check_format_input_vector", ["if allow_None", "  if inp is None", "    return None", "is_array_like(...)", "inp = make_float_array(...)", "check_array_shape(...)", "if isinstance(reshape, tuple)", "  if inp.size == 0", "    raise MagpylibBadUserInput", "  return np.reshape(inp, reshape)", "if forbid_negative0", "  if np.any(inp <= 0)", "    raise MagpylibBadUserInput", "return inp"]),
+  ("check_format_input_vector2", ["is_array_like(...)", "inp = make_float_array(...)", "for (d1, d2) in zip(inp.shape, shape)", "  if d2 is not None", "    if d1 != d2", "      raise ValueError", "return inp"]),
+  ("check_format_input_vertices", ["inp = check_format_input_vector(...)", "if inp is not None", "  if inp.shape[0] < 2", "    raise MagpylibBadUserInput", "return inp"]),
+  ("Sensor.pixel", ["pixel = check_format_input_vector(...)", "if pixel is not None and pixel.size == 0", "  raise MagpylibBadUserInput", "self._pixel = pixel"]),
+  ("Sensor.handedness", ["if not (isinstance(val, str) and val in {'right', 'left'})", "  raise MagpylibBadUserInput", "self._handedness = val"])]
 
 end MagpyVerif.Gen.Attr
